@@ -14,7 +14,7 @@ ASSUME = c02.ASSUME[:4] + [
     "ASAP bound recomputed from observed predecessor dates; ALAP deadline = own/inherited end, else earliest successor start minus gap, else observed project end",
 ]
 
-PATTERNS = ["one20", "one90", "one600", "chain", "indep", "fork", "prio", "team", "gapchain", "nestends", "mid10", "mid25", "mid40", "mid50"]
+PATTERNS = ["one20", "one90", "one600", "chain", "indep", "fork", "prio", "team", "gapchain", "nestends", "mid10", "mid25", "mid40", "mid50", "gaplen2h", "gaplen1d"]
 
 
 def universe(tier):
@@ -73,6 +73,9 @@ def to_spec(it):
         # the dependency bound lies m minutes past the hour (a predecessor of m minutes on the other resource): inside a slot, and for
         # sub-hour resolutions not in the first slot of its clock hour; a lower-priority task on the same resource follows
         tasks = [{"id": "p", "effort": int(pat[3:]), "alloc": ["r2"]}, T("a", 90, deps=["p"]), T("low", 60, prio=300)]
+    elif pat.startswith("gaplen"):
+        # gaplength = working time of the PROJECT calendar after the predecessor's end; the task's own resource may have another calendar
+        tasks = [{"id": "p", "effort": 120, "alloc": ["r2"]}, T("a", 90, deps=[{"ref": "p", "gaplen": pat[6:]}]), T("low", 60, prio=300)]
     elif pat == "gapchain":
         # successor on another resource, gap that is not a multiple of the slot: the predecessor's deadline falls inside a slot
         tasks = [T("a", 150), {"id": "b", "effort": 90, "alloc": ["r2"], "deps": [{"ref": "a", "gap": "90min" if L == 60 else "50min"}]}]
